@@ -149,10 +149,10 @@ impl Op {
         matches!(self, Op::Compact { .. })
     }
     /// how many commits (transactions) one successful call may make: compaction without indices
-    /// to remap first commits ReserveFragments, then Rewrite
+    /// to remap commits ReserveFragments once per rewrite task and once more before the final Rewrite
     pub fn max_commits(&self) -> u64 {
         match self {
-            Op::Compact { .. } => 2,
+            Op::Compact { .. } => u64::MAX,
             _ => 1,
         }
     }
